@@ -97,7 +97,9 @@ fn mesh2_hist(t: &mut Toks, cx: &mut Ctx) -> String {
             "varmat" => { let k = t.usize(); let r = guarded(|| m.var_as_matrix(k));
                 match &r { Ok(mm) => cx.check(k < nvars && mm.rows() == nx && mm.cols() == ny && (0..nx).all(|a| (0..ny).all(|b| mm[(a, b)] == rf[a][b][k])), "var_as_matrix differs from the stored values"), Err(_) => cx.check(k >= nvars, "var_as_matrix rejected a valid variable") }
                 r.map(|mm| wr_mat(&mm)) }
-            "coord" => { let (i, j) = (t.usize(), t.usize()); let r = guarded(|| m.coord(i, j)); r.map(|(x, y)| format!("{} {}", x.wr(), y.wr())) }
+            "coord" => { let (i, j) = (t.usize(), t.usize()); let r = guarded(|| m.coord(i, j));
+                if let Ok((x, y)) = &r { cx.check(i < nx && j < ny && x.to_bits() == xn[i].to_bits() && y.to_bits() == yn[j].to_bits(), "coord returned something else than the node coordinates / accepted an out-of-range node"); }
+                r.map(|(x, y)| format!("{} {}", x.wr(), y.wr())) }
             _ => panic!("HARNESS: unknown mesh2 op {}", op),
         };
         cx.check((0..nx).all(|i| (0..ny).all(|j| m[(i, j)].vec == rf[i][j])), "mesh differs from the reference map after the operation");
